@@ -62,7 +62,7 @@ def make_cases(rng, tier):
         g = lvl.HistGen(rng)
         ops = g.history(rng.randint(1, 6))
         orders = [g.new_order() for _ in range(rng.randint(0, 6))]
-        ops.append("EXT %s %d %d %d [%s]" % (["snap", "ref", "data", "text"][i % 4], rng.choice([0, 7, 1 << 63]),
+        ops.append("EXT %s %d %d %d [%s]" % (["snap", "ref", "data", "text", "pkg", "pjson"][i % 6], rng.choice([0, 7, 1 << 63]),
                                             rng.choice([0, 3, (1 << 64) - 1]), rng.choice([0, 9, 1000]), ",".join(orders)))
         ops += ["SNAP", "MATCH 4 u7002", "REBUILD " + rng.choice(lvl.VIAS)]
         cs.append((g.price, ops))
